@@ -615,3 +615,59 @@ def check_algebra_arithmetic(res, B, xs, case, sub):
                     if got.shape != want_.shape or not _same(got, want_, 1e-13)[0]:
                         res.fail(site="%s.algebra_arithmetic" % B.name, clause="numeric_api:scalar_of_any_accepted_numeric_type_scales_by_its_value", cls="%s;%s" % (tag, side),
                                  detail=dict(x=p, scalar=repr(sc), side=side, got=got, want=want_), sub=sub, case=case)
+
+
+QUICK_THREAD_GROUPS = ("SO3Quat", "SO3Mrp", "SO3EulerB321", "SE3Quat", "SE23Mrp", "SE23Quat", "SE2")
+
+
+def check_threads(res, B, elems, xs, case, sub, ops_wanted, bound=1, max_runs=1500, only_pairs=None):
+    """two numeric calls of the group operations in two threads, every interleaving of the library's Python statements with at most `bound`
+    preemptions (mc/threads.py): the operations share nothing, so each returns what it returns alone.  Pairs: the same operation on two
+    different elements, and each operation against `exp` / `to_Matrix` of the other element."""
+    from . import threads
+    G, A = B.G, B.G.algebra
+    if case.get("tier") != "thorough" and B.name not in QUICK_THREAD_GROUPS:
+        return
+    ops = {k: v for k, v in group_ops(B).items() if k in ops_wanted}
+    if not ops:
+        return
+    ops = {k: v for k, v in ops.items() if len(elems if v[0][0] == "g" else xs) >= 2}
+    tracked = ("cyecca/lie/", "cyecca/symbolic.py")
+
+    def mk(op, which):
+        kinds, fn = ops[op]
+        pool = elems if kinds[0] == "g" else xs
+        ps = [pool[which]] + ([pool[1 - which]] if len(kinds) == 2 else [])
+
+        def call():
+            with contextlib.redirect_stdout(io.StringIO()):
+                os_ = [G.elem(ca.DM(p)) if k_ == "g" else A.elem(ca.DM(p)) for k_, p in zip(kinds, ps)]
+                return ev(fn(*os_)).tobytes()
+        return call
+    names = sorted(ops)
+    pairs = [(o, o) for o in names] + [(o, names[(i + 1) % len(names)]) for i, o in enumerate(names) if len(names) > 1]
+    if only_pairs is not None:
+        pairs = [p_ for p_ in only_pairs if p_[0] in ops and p_[1] in ops]
+    for a, b in pairs:
+        fa, fb = mk(a, 0), mk(b, 1)
+        try:
+            alone = [fa(), fb()]
+        except NotImplementedError:
+            continue
+        except Exception:  # noqa: BLE001 - reported by the sequential checks
+            continue
+        n = 0
+        for choices, results, npts, capped in threads.explore([fa, fb], tracked, bound, max_runs=max_runs):
+            if capped:
+                res.counters["thread_schedules_capped"] += 1
+                break
+            n += 1
+            res.count("evaluations")
+            res.count("schedules")
+            res.counters["max_scheduling_points"] = max(res.counters["max_scheduling_points"], npts)
+            bad = [k for k, r in enumerate(results) if r is None or r[0] != "ok" or r[1] != alone[k]]
+            if bad:
+                k = bad[0]
+                res.fail(site="%s.%s" % (B.name, (a, b)[k]), clause="numeric_api:result_independent_of_a_concurrent_call", cls="with_" + (b, a)[k],
+                         detail=dict(pair=[a, b], thread=k, schedule=choices, outcome=(results[k][1] if results[k] and results[k][0] != "ok" else "differs from the call alone")), sub=sub, case=case)
+                return  # one counterexample per group is enough (a change that makes every thread re-derive tables makes each run slow)
